@@ -1,19 +1,33 @@
 import PnaVerif.Model.Cli.Update
 /-
   Properties of the entry-list model of `pna append`, `pna experimental update` and `delete`
-  (`PnaVerif/Model/Cli/Update.lean`).
+  (`PnaVerif/Model/Cli/Update.lean`), after the two repairs of `update` (the walker's result is
+  de-duplicated by name; later entries of a re-created name are left out).
 
-  The scan of `updateOp` is a `List.foldl` of `updateStep`; every property is an invariant of that
-  fold proved by induction on the scanned list with the state generalised (`scan_*`), then read off
-  the final state `kept ++ replaced ++ pending`.
-
-  `update_count` is the central counting fact: with unique names on both sides, a name occurs in
-  the result once if it is a target and as often as in the old archive otherwise.  Both uniqueness
-  hypotheses are necessary for it (see the `example`s at the end of the file).
+  NO uniqueness hypothesis is needed any more.  The central fact is `update_withName`: for EVERY
+  archive `a`, EVERY walker result `ts` and every name `n`, the entries of the result named `n` are
+  * the entries of `a` named `n`, unchanged and in order, if `n` is not a target, or if the first
+    archived entry of that name is excluded / filtered out by the time condition;
+  * exactly the FIRST target named `n` otherwise.
+  It is proved by following one name through the scan (`List.foldl updateStep`): with respect to a
+  name the scan state is in one of three modes — `dropping` (the name has been re-created: later
+  entries are left out), `keeping` (the name is neither pending nor re-created: entries are
+  copied), `pending` (the name still waits for its first archived entry) — see `scan_dropping`,
+  `scan_keeping`, `scan_pending`.
 -/
 namespace Pna.Cli
 
 def names (l : List UEntry) : List Bytes := l.map (·.name)
+
+/-- the entries named `n`, in order -/
+def withName (n : Bytes) (l : List UEntry) : List UEntry := l.filter (fun e => e.name == n)
+
+/-- "this archived entry is to be re-created": not excluded and the time filter asks for it -/
+def wants (excl : Bytes → Bool) (need : UEntry → Bool) (e : UEntry) : Bool := !excl e.name && need e
+
+theorem wants_iff (excl : Bytes → Bool) (need : UEntry → Bool) (e : UEntry) :
+    wants excl need e = true ↔ (excl e.name = false ∧ need e = true) := by
+  unfold wants; cases excl e.name <;> cases need e <;> simp
 
 /-! ### `append` / `delete` -/
 
@@ -40,31 +54,8 @@ theorem delete_nodup (sel : Bytes → Bool) (a : List UEntry) (ha : (names a).No
   unfold deleteOp names at *
   exact List.Nodup.sublist (List.Sublist.map _ List.filter_sublist) ha
 
-/-! ### the scan of `update` -/
+/-! ### names, `withName` -/
 
-/-- the three possible shapes of one scan step -/
-theorem updateStep_cases (excl : Bytes → Bool) (need : UEntry → Bool) (s : UState) (e : UEntry) :
-    (s.pending.find? (·.name == e.name) = none ∧
-        updateStep excl need s e = { s with kept := s.kept ++ [e] }) ∨
-    (∃ t, s.pending.find? (·.name == e.name) = some t ∧ (excl e.name = false ∧ need e = true) ∧
-        updateStep excl need s e =
-          { kept := s.kept, replaced := s.replaced ++ [t],
-            pending := s.pending.filter (·.name != e.name) }) ∨
-    (∃ t, s.pending.find? (·.name == e.name) = some t ∧ ¬ (excl e.name = false ∧ need e = true) ∧
-        updateStep excl need s e =
-          { kept := s.kept ++ [e], replaced := s.replaced,
-            pending := s.pending.filter (·.name != e.name) }) := by
-  unfold updateStep
-  cases hf : s.pending.find? (·.name == e.name) with
-  | none => left; simp
-  | some t =>
-    right
-    by_cases hc : (excl e.name = false ∧ need e = true)
-    · left; refine ⟨t, rfl, hc, ?_⟩; simp [hc.1, hc.2]
-    · right; refine ⟨t, rfl, hc, ?_⟩
-      have : (!excl e.name && need e) = false := by
-        cases h1 : excl e.name <;> cases h2 : need e <;> simp_all
-      simp [this]
 @[simp] theorem names_nil : names [] = [] := rfl
 @[simp] theorem names_cons (e : UEntry) (l : List UEntry) : names (e :: l) = e.name :: names l := rfl
 @[simp] theorem names_append (l₁ l₂ : List UEntry) : names (l₁ ++ l₂) = names l₁ ++ names l₂ := by
@@ -72,6 +63,48 @@ theorem updateStep_cases (excl : Bytes → Bool) (need : UEntry → Bool) (s : U
 
 theorem mem_names_of_mem {e : UEntry} {l : List UEntry} (h : e ∈ l) : e.name ∈ names l :=
   List.mem_map_of_mem h
+
+theorem mem_names_iff {n : Bytes} {l : List UEntry} : n ∈ names l ↔ ∃ x ∈ l, x.name = n := by
+  simp [names]
+
+@[simp] theorem withName_nil (n : Bytes) : withName n [] = [] := rfl
+
+theorem withName_cons_eq {n : Bytes} {e : UEntry} (h : e.name = n) (l : List UEntry) :
+    withName n (e :: l) = e :: withName n l := by
+  unfold withName; rw [List.filter_cons_of_pos (by simp [h])]
+
+theorem withName_cons_ne {n : Bytes} {e : UEntry} (h : e.name ≠ n) (l : List UEntry) :
+    withName n (e :: l) = withName n l := by
+  unfold withName; rw [List.filter_cons_of_neg (by simp [h])]
+
+@[simp] theorem withName_append (n : Bytes) (l₁ l₂ : List UEntry) :
+    withName n (l₁ ++ l₂) = withName n l₁ ++ withName n l₂ := by
+  simp [withName]
+
+theorem mem_withName {n : Bytes} {x : UEntry} {l : List UEntry} :
+    x ∈ withName n l ↔ x ∈ l ∧ x.name = n := by
+  simp [withName, List.mem_filter]
+
+theorem withName_eq_nil {n : Bytes} {l : List UEntry} : withName n l = [] ↔ n ∉ names l := by
+  simp [withName, List.filter_eq_nil_iff, names]
+
+/-- dropping the entries named `m` does not change the entries named `n ≠ m` … -/
+theorem withName_filter_ne {n m : Bytes} (h : n ≠ m) (p : List UEntry) :
+    withName n (p.filter (·.name != m)) = withName n p := by
+  unfold withName
+  rw [List.filter_filter]
+  apply List.filter_congr
+  intro x _
+  by_cases hx : x.name = n
+  · simp [hx, h]
+  · simp [hx]
+
+/-- … and removes all entries named `m` -/
+theorem withName_filter_self (n : Bytes) (p : List UEntry) :
+    withName n (p.filter (·.name != n)) = [] := by
+  rw [withName_eq_nil, mem_names_iff]
+  rintro ⟨x, hx, rfl⟩
+  simp [List.mem_filter] at hx
 
 theorem mem_names_filter_ne (n m : Bytes) (p : List UEntry) :
     n ∈ names (p.filter (·.name != m)) ↔ n ∈ names p ∧ n ≠ m := by
@@ -83,34 +116,6 @@ theorem mem_names_filter_ne (n m : Bytes) (p : List UEntry) :
 theorem names_filter_ne_sublist (m : Bytes) (p : List UEntry) :
     (names (p.filter (·.name != m))).Sublist (names p) :=
   List.Sublist.map _ List.filter_sublist
-
-theorem count_names_filter_ne (n m : Bytes) (p : List UEntry) (h : n ≠ m) :
-    (names (p.filter (·.name != m))).count n = (names p).count n := by
-  induction p with
-  | nil => rfl
-  | cons x p ih =>
-    by_cases hx : x.name = m
-    · have : (x.name != m) = false := by simp [hx]
-      rw [List.filter_cons_of_neg (p := fun y : UEntry => y.name != m) (by simp [this])]
-      have hxn : (x.name == n) = false := by
-        simp only [beq_eq_false_iff_ne, ne_eq]; intro h'; exact h (h'.symm.trans hx)
-      simp [List.count_cons, hxn, ih]
-    · have : (x.name != m) = true := by simp [hx]
-      rw [List.filter_cons_of_pos (p := fun y : UEntry => y.name != m) this]
-      simp [List.count_cons, ih]
-
-/-- in a list with unique names an entry is determined by its name -/
-theorem eq_of_name_eq {p : List UEntry} (hp : (names p).Nodup) {x y : UEntry}
-    (hx : x ∈ p) (hy : y ∈ p) (h : x.name = y.name) : x = y := by
-  induction p with
-  | nil => cases hx
-  | cons z p ih =>
-    simp only [names_cons, List.nodup_cons] at hp
-    rcases List.mem_cons.1 hx with rfl | hx' <;> rcases List.mem_cons.1 hy with rfl | hy'
-    · rfl
-    · exact absurd (h ▸ mem_names_of_mem hy') hp.1
-    · exact absurd (h ▸ mem_names_of_mem hx') hp.1
-    · exact ih hp.2 hx' hy'
 
 theorem find_name_spec {p : List UEntry} {m : Bytes} {t : UEntry}
     (h : p.find? (·.name == m) = some t) : t ∈ p ∧ t.name = m := by
@@ -125,6 +130,510 @@ theorem find_name_none {p : List UEntry} {m : Bytes}
   have := List.find?_eq_none.1 h x hx
   simp at this
 
+/-- the first entry named `n` is the head of the entries named `n` -/
+theorem find_eq_head_withName (n : Bytes) (l : List UEntry) :
+    l.find? (·.name == n) = (withName n l).head? := by
+  induction l with
+  | nil => rfl
+  | cons x l ih =>
+    by_cases hx : x.name = n
+    · rw [withName_cons_eq hx]; simp [hx]
+    · rw [withName_cons_ne hx, List.find?_cons_of_neg (by simp [hx]), ih]
+
+/-- searching for `n` is not disturbed by dropping the entries named `m ≠ n` -/
+theorem find_name_filter_ne {n m : Bytes} (h : n ≠ m) (p : List UEntry) :
+    (p.filter (·.name != m)).find? (·.name == n) = p.find? (·.name == n) := by
+  rw [find_eq_head_withName, find_eq_head_withName, withName_filter_ne h]
+
+/-! ### the de-duplicated walker result -/
+
+theorem dedupGo_sub (x : UEntry) (ts : List UEntry) : ∀ seen : List Bytes,
+    x ∈ dedupGo seen ts → x ∈ ts ∧ x.name ∉ seen := by
+  induction ts with
+  | nil => intro seen h; simp [dedupGo] at h
+  | cons t ts ih =>
+    intro seen h
+    unfold dedupGo at h
+    by_cases hs : t.name ∈ seen
+    · rw [if_pos (by simpa using hs)] at h
+      exact ⟨List.mem_cons_of_mem _ (ih seen h).1, (ih seen h).2⟩
+    · rw [if_neg (by simpa using hs)] at h
+      rcases List.mem_cons.1 h with rfl | h
+      · exact ⟨List.mem_cons_self, hs⟩
+      · have := ih _ h
+        exact ⟨List.mem_cons_of_mem _ this.1, fun hx => this.2 (List.mem_cons_of_mem _ hx)⟩
+
+/-- the entries named `n` of the de-duplicated list: the first one of the original list, unless
+    the name has been seen before -/
+theorem withName_dedupGo (n : Bytes) (ts : List UEntry) : ∀ seen : List Bytes,
+    withName n (dedupGo seen ts) =
+      if n ∈ seen then [] else (ts.find? (·.name == n)).toList := by
+  induction ts with
+  | nil => intro seen; simp [dedupGo]
+  | cons t ts ih =>
+    intro seen
+    unfold dedupGo
+    by_cases hs : t.name ∈ seen
+    · rw [if_pos (by simpa using hs), ih]
+      by_cases hn : n ∈ seen
+      · simp [hn]
+      · have : t.name ≠ n := fun h => hn (h ▸ hs)
+        simp [hn, List.find?_cons_of_neg, this]
+    · rw [if_neg (by simpa using hs)]
+      by_cases ht : t.name = n
+      · rw [withName_cons_eq ht, ih]
+        subst ht
+        simp [hs]
+      · rw [withName_cons_ne ht, ih]
+        have hne : n ≠ t.name := fun h => ht h.symm
+        simp [List.find?_cons_of_neg, ht, hne]
+
+theorem withName_dedupNames (n : Bytes) (ts : List UEntry) :
+    withName n (dedupNames ts) = (ts.find? (·.name == n)).toList := by
+  unfold dedupNames; rw [withName_dedupGo]; simp
+
+theorem find_dedupNames (n : Bytes) (ts : List UEntry) :
+    (dedupNames ts).find? (·.name == n) = ts.find? (·.name == n) := by
+  rw [find_eq_head_withName, withName_dedupNames]
+  cases ts.find? (·.name == n) <;> rfl
+
+theorem dedupNames_sub {x : UEntry} {ts : List UEntry} (h : x ∈ dedupNames ts) : x ∈ ts :=
+  (dedupGo_sub x ts [] h).1
+
+theorem mem_names_dedupNames (n : Bytes) (ts : List UEntry) :
+    n ∈ names (dedupNames ts) ↔ n ∈ names ts := by
+  constructor
+  · intro h
+    rcases mem_names_iff.1 h with ⟨x, hx, rfl⟩
+    exact mem_names_of_mem (dedupNames_sub hx)
+  · intro h
+    apply Classical.byContradiction
+    intro hn
+    have h1 := withName_eq_nil.2 hn
+    rw [withName_dedupNames] at h1
+    cases hf : ts.find? (·.name == n) with
+    | none => exact find_name_none hf h
+    | some t => rw [hf] at h1; simp at h1
+
+theorem dedupGo_nodup (ts : List UEntry) : ∀ seen : List Bytes, (names (dedupGo seen ts)).Nodup := by
+  induction ts with
+  | nil => intro seen; simp [dedupGo]
+  | cons t ts ih =>
+    intro seen
+    unfold dedupGo
+    split
+    · exact ih seen
+    · rw [names_cons, List.nodup_cons]
+      refine ⟨?_, ih _⟩
+      intro h
+      rcases mem_names_iff.1 h with ⟨x, hx, hxn⟩
+      exact (dedupGo_sub x ts _ hx).2 (hxn ▸ List.mem_cons_self)
+
+theorem dedupNames_nodup (ts : List UEntry) : (names (dedupNames ts)).Nodup := dedupGo_nodup ts []
+
+/-- a list with unique names is not changed -/
+theorem dedupGo_of_nodup (ts : List UEntry) : ∀ seen : List Bytes, (names ts).Nodup →
+    (∀ n ∈ names ts, n ∉ seen) → dedupGo seen ts = ts := by
+  induction ts with
+  | nil => intro seen _ _; rfl
+  | cons t ts ih =>
+    intro seen hnd hs
+    rw [names_cons, List.nodup_cons] at hnd
+    unfold dedupGo
+    rw [if_neg (by simpa using hs t.name List.mem_cons_self)]
+    congr 1
+    apply ih _ hnd.2
+    intro n hn hmem
+    rcases List.mem_cons.1 hmem with rfl | h
+    · exact hnd.1 hn
+    · exact hs n (List.mem_cons_of_mem _ hn) h
+
+theorem dedupNames_of_nodup (ts : List UEntry) (h : (names ts).Nodup) : dedupNames ts = ts :=
+  dedupGo_of_nodup ts [] h (fun _ _ h => by cases h)
+
+/-! ### the scan of `update` -/
+
+/-- the four possible shapes of one scan step -/
+theorem updateStep_cases (excl : Bytes → Bool) (need : UEntry → Bool) (s : UState) (e : UEntry) :
+    (e.name ∈ s.done ∧ updateStep excl need s e = s) ∨
+    (e.name ∉ s.done ∧ s.pending.find? (·.name == e.name) = none ∧
+        updateStep excl need s e = { s with kept := s.kept ++ [e] }) ∨
+    (∃ t, e.name ∉ s.done ∧ s.pending.find? (·.name == e.name) = some t ∧
+        wants excl need e = true ∧
+        updateStep excl need s e =
+          { kept := s.kept, replaced := s.replaced ++ [t],
+            pending := s.pending.filter (·.name != e.name), done := e.name :: s.done }) ∨
+    (∃ t, e.name ∉ s.done ∧ s.pending.find? (·.name == e.name) = some t ∧
+        wants excl need e = false ∧
+        updateStep excl need s e =
+          { kept := s.kept ++ [e], replaced := s.replaced,
+            pending := s.pending.filter (·.name != e.name), done := s.done }) := by
+  unfold updateStep
+  by_cases hd : e.name ∈ s.done
+  · left; exact ⟨hd, by rw [if_pos (by simpa using hd)]⟩
+  · right
+    rw [if_neg (by simpa using hd)]
+    cases hf : s.pending.find? (·.name == e.name) with
+    | none => left; exact ⟨hd, rfl, rfl⟩
+    | some t =>
+      right
+      cases hw : wants excl need e
+      · right; refine ⟨t, hd, rfl, rfl, ?_⟩
+        unfold wants at hw; simp only [hw]; simp
+      · left; refine ⟨t, hd, rfl, rfl, ?_⟩
+        unfold wants at hw; simp only [hw]; simp
+
+/-- `dropping`: the name has been re-created — nothing named `n` is added or removed any more -/
+theorem scan_dropping (excl : Bytes → Bool) (need : UEntry → Bool) (n : Bytes)
+    (a : List UEntry) : ∀ s : UState, n ∈ s.done →
+      withName n (a.foldl (updateStep excl need) s).kept = withName n s.kept ∧
+      withName n (a.foldl (updateStep excl need) s).replaced = withName n s.replaced ∧
+      withName n (a.foldl (updateStep excl need) s).pending = withName n s.pending := by
+  induction a with
+  | nil => intro s _; exact ⟨rfl, rfl, rfl⟩
+  | cons e a ih =>
+    intro s hd
+    rw [List.foldl_cons]
+    rcases updateStep_cases excl need s e with ⟨_, hs⟩ | ⟨hnd, _, hs⟩ | ⟨t, hnd, hf, _, hs⟩ |
+      ⟨t, hnd, hf, _, hs⟩
+    · rw [hs]; exact ih s hd
+    · have hne : e.name ≠ n := fun h => hnd (h ▸ hd)
+      rw [hs]; have := ih { s with kept := s.kept ++ [e] } hd
+      simpa [withName_cons_ne hne] using this
+    · have hne : e.name ≠ n := fun h => hnd (h ▸ hd)
+      have hne2 : n ≠ e.name := fun h => hne h.symm
+      have htn : t.name ≠ n := (find_name_spec hf).2 ▸ hne
+      rw [hs]
+      have := ih { kept := s.kept, replaced := s.replaced ++ [t],
+                   pending := s.pending.filter (·.name != e.name), done := e.name :: s.done }
+        (List.mem_cons_of_mem _ hd)
+      simpa [withName_cons_ne htn, withName_filter_ne hne2] using this
+    · have hne : e.name ≠ n := fun h => hnd (h ▸ hd)
+      have hne2 : n ≠ e.name := fun h => hne h.symm
+      rw [hs]
+      have := ih { kept := s.kept ++ [e], replaced := s.replaced,
+                   pending := s.pending.filter (·.name != e.name), done := s.done } hd
+      simpa [withName_cons_ne hne, withName_filter_ne hne2] using this
+
+/-- `keeping`: the name is neither re-created nor pending — the scanned entries named `n` are
+    copied -/
+theorem scan_keeping (excl : Bytes → Bool) (need : UEntry → Bool) (n : Bytes)
+    (a : List UEntry) : ∀ s : UState, n ∉ s.done → n ∉ names s.pending →
+      withName n (a.foldl (updateStep excl need) s).kept = withName n s.kept ++ withName n a ∧
+      withName n (a.foldl (updateStep excl need) s).replaced = withName n s.replaced ∧
+      withName n (a.foldl (updateStep excl need) s).pending = withName n s.pending := by
+  induction a with
+  | nil => intro s _ _; simp
+  | cons e a ih =>
+    intro s hd hp
+    rw [List.foldl_cons]
+    rcases updateStep_cases excl need s e with ⟨hin, hs⟩ | ⟨hnd, _, hs⟩ | ⟨t, hnd, hf, _, hs⟩ |
+      ⟨t, hnd, hf, _, hs⟩
+    · have hne : e.name ≠ n := fun h => hd (h ▸ hin)
+      rw [hs, withName_cons_ne hne]; exact ih s hd hp
+    · rw [hs]; have := ih { s with kept := s.kept ++ [e] } hd hp
+      by_cases hne : e.name = n
+      · simpa [withName_cons_eq hne] using this
+      · simpa [withName_cons_ne hne] using this
+    · have ht := find_name_spec hf
+      have hne : e.name ≠ n := fun h => hp (h ▸ ht.2 ▸ mem_names_of_mem ht.1)
+      have hne2 : n ≠ e.name := fun h => hne h.symm
+      have htn : t.name ≠ n := ht.2 ▸ hne
+      rw [hs, withName_cons_ne hne]
+      have := ih { kept := s.kept, replaced := s.replaced ++ [t],
+                   pending := s.pending.filter (·.name != e.name), done := e.name :: s.done }
+        (by simp [hd, hne2]) (by simp [mem_names_filter_ne, hp])
+      simpa [withName_cons_ne htn, withName_filter_ne hne2] using this
+    · have ht := find_name_spec hf
+      have hne : e.name ≠ n := fun h => hp (h ▸ ht.2 ▸ mem_names_of_mem ht.1)
+      have hne2 : n ≠ e.name := fun h => hne h.symm
+      rw [hs, withName_cons_ne hne]
+      have := ih { kept := s.kept ++ [e], replaced := s.replaced,
+                   pending := s.pending.filter (·.name != e.name), done := s.done }
+        hd (by simp [mem_names_filter_ne, hp])
+      simpa [withName_cons_ne hne, withName_filter_ne hne2] using this
+
+/-- a step on an entry with another name does not concern `n` -/
+theorem updateStep_other (excl : Bytes → Bool) (need : UEntry → Bool) (n : Bytes) (s : UState)
+    (e : UEntry) (hne : e.name ≠ n) :
+    withName n (updateStep excl need s e).kept = withName n s.kept ∧
+    withName n (updateStep excl need s e).replaced = withName n s.replaced ∧
+    withName n (updateStep excl need s e).pending = withName n s.pending ∧
+    (n ∈ (updateStep excl need s e).done ↔ n ∈ s.done) ∧
+    (updateStep excl need s e).pending.find? (·.name == n) = s.pending.find? (·.name == n) := by
+  have hne2 : n ≠ e.name := fun h => hne h.symm
+  rcases updateStep_cases excl need s e with ⟨_, hs⟩ | ⟨_, _, hs⟩ | ⟨t, _, hf, _, hs⟩ |
+    ⟨t, _, hf, _, hs⟩
+  · rw [hs]; simp
+  · rw [hs]; simp [withName_cons_ne hne]
+  · have htn : t.name ≠ n := (find_name_spec hf).2 ▸ hne
+    rw [hs]; simp [withName_cons_ne htn, withName_filter_ne hne2, find_name_filter_ne hne2, hne2]
+  · rw [hs]; simp [withName_cons_ne hne, withName_filter_ne hne2, find_name_filter_ne hne2]
+
+/-- a name that does not occur in the scanned list is not concerned by the scan -/
+theorem scan_absent (excl : Bytes → Bool) (need : UEntry → Bool) (n : Bytes)
+    (a : List UEntry) : ∀ s : UState, n ∉ names a →
+      withName n (a.foldl (updateStep excl need) s).kept = withName n s.kept ∧
+      withName n (a.foldl (updateStep excl need) s).replaced = withName n s.replaced ∧
+      withName n (a.foldl (updateStep excl need) s).pending = withName n s.pending := by
+  induction a with
+  | nil => intro s _; exact ⟨rfl, rfl, rfl⟩
+  | cons e a ih =>
+    intro s hn
+    rw [names_cons, List.mem_cons, not_or] at hn
+    have ho := updateStep_other excl need n s e (fun h => hn.1 h.symm)
+    have := ih (updateStep excl need s e) hn.2
+    rw [List.foldl_cons, this.1, this.2.1, this.2.2, ho.1, ho.2.1, ho.2.2.1]
+    exact ⟨rfl, rfl, rfl⟩
+
+/-- `pending`, first archived entry of the name is to be re-created: the pending target is written
+    once (to `replaced`), every archived entry of the name is left out -/
+theorem scan_pending_wants (excl : Bytes → Bool) (need : UEntry → Bool) (n : Bytes) (t e : UEntry)
+    (hw : wants excl need e = true)
+    (a : List UEntry) : ∀ s : UState, n ∉ s.done → s.pending.find? (·.name == n) = some t →
+      a.find? (·.name == n) = some e →
+      withName n (a.foldl (updateStep excl need) s).kept = withName n s.kept ∧
+      withName n (a.foldl (updateStep excl need) s).replaced = withName n s.replaced ++ [t] ∧
+      withName n (a.foldl (updateStep excl need) s).pending = [] := by
+  induction a with
+  | nil => intro s _ _ h; simp at h
+  | cons x a ih =>
+    intro s hd hp ha
+    rw [List.foldl_cons]
+    by_cases hx : x.name = n
+    · rw [List.find?_cons_of_pos (by simp [hx])] at ha
+      have hxe : x = e := Option.some.inj ha
+      rw [hxe] at hx ⊢
+      subst hx
+      have htn := (find_name_spec hp).2
+      rcases updateStep_cases excl need s e with ⟨hin, _⟩ | ⟨_, hf, _⟩ | ⟨t', _, hf, _, hs⟩ |
+        ⟨t', _, hf, hw', _⟩
+      · exact absurd hin hd
+      · rw [hp] at hf; cases hf
+      · rw [hp] at hf; cases hf
+        rw [hs]
+        have := scan_dropping excl need e.name a
+          { kept := s.kept, replaced := s.replaced ++ [t],
+            pending := s.pending.filter (·.name != e.name), done := e.name :: s.done }
+          List.mem_cons_self
+        simpa [withName_cons_eq htn, withName_filter_self] using this
+      · rw [hw] at hw'; cases hw'
+    · rw [List.find?_cons_of_neg (by simp [hx])] at ha
+      have ho := updateStep_other excl need n s x hx
+      have := ih (updateStep excl need s x) (fun h => hd (ho.2.2.2.1.1 h)) (ho.2.2.2.2 ▸ hp) ha
+      rw [this.1, this.2.1, this.2.2, ho.1, ho.2.1]
+      exact ⟨rfl, rfl, rfl⟩
+
+/-- `pending`, first archived entry of the name is excluded / filtered out: the target is
+    forgotten, every archived entry of the name is copied -/
+theorem scan_pending_skips (excl : Bytes → Bool) (need : UEntry → Bool) (n : Bytes) (t e : UEntry)
+    (hw : wants excl need e = false)
+    (a : List UEntry) : ∀ s : UState, n ∉ s.done → s.pending.find? (·.name == n) = some t →
+      a.find? (·.name == n) = some e →
+      withName n (a.foldl (updateStep excl need) s).kept = withName n s.kept ++ withName n a ∧
+      withName n (a.foldl (updateStep excl need) s).replaced = withName n s.replaced ∧
+      withName n (a.foldl (updateStep excl need) s).pending = [] := by
+  induction a with
+  | nil => intro s _ _ h; simp at h
+  | cons x a ih =>
+    intro s hd hp ha
+    rw [List.foldl_cons]
+    by_cases hx : x.name = n
+    · rw [List.find?_cons_of_pos (by simp [hx])] at ha
+      have hxe : x = e := Option.some.inj ha
+      rw [hxe] at hx ⊢
+      subst hx
+      rcases updateStep_cases excl need s e with ⟨hin, _⟩ | ⟨_, hf, _⟩ | ⟨t', _, hf, hw', _⟩ |
+        ⟨t', _, hf, _, hs⟩
+      · exact absurd hin hd
+      · rw [hp] at hf; cases hf
+      · rw [hw] at hw'; cases hw'
+      · rw [hs]
+        have := scan_keeping excl need e.name a
+          { kept := s.kept ++ [e], replaced := s.replaced,
+            pending := s.pending.filter (·.name != e.name), done := s.done }
+          hd (by simp [mem_names_filter_ne])
+        simpa [withName_cons_eq, withName_filter_self] using this
+    · rw [List.find?_cons_of_neg (by simp [hx])] at ha
+      have ho := updateStep_other excl need n s x hx
+      have := ih (updateStep excl need s x) (fun h => hd (ho.2.2.2.1.1 h)) (ho.2.2.2.2 ▸ hp) ha
+      rw [this.1, this.2.1, this.2.2, ho.1, ho.2.1, withName_cons_ne hx]
+      exact ⟨rfl, rfl, rfl⟩
+
+/-! ### the three parts of the result, one name at a time -/
+
+/-- the final state of the scan of `updateOp` -/
+def updateScan (excl : Bytes → Bool) (need : UEntry → Bool) (a ts : List UEntry) : UState :=
+  a.foldl (updateStep excl need) { pending := dedupNames ts }
+
+theorem updateOp_eq_scan (excl : Bytes → Bool) (need : UEntry → Bool) (a ts : List UEntry) :
+    updateOp excl need a ts =
+      (updateScan excl need a ts).kept ++ (updateScan excl need a ts).replaced ++
+        (updateScan excl need a ts).pending := rfl
+
+/-- where the entries named `n` of the result sit: copied (`kept`), re-created (`replaced`) or
+    new (`pending`) -/
+theorem update_parts (excl : Bytes → Bool) (need : UEntry → Bool) (a ts : List UEntry) (n : Bytes) :
+    (ts.find? (·.name == n) = none ∧
+      withName n (updateScan excl need a ts).kept = withName n a ∧
+      withName n (updateScan excl need a ts).replaced = [] ∧
+      withName n (updateScan excl need a ts).pending = []) ∨
+    (∃ t0, ts.find? (·.name == n) = some t0 ∧ a.find? (·.name == n) = none ∧
+      withName n (updateScan excl need a ts).kept = [] ∧
+      withName n (updateScan excl need a ts).replaced = [] ∧
+      withName n (updateScan excl need a ts).pending = [t0]) ∨
+    (∃ t0 e, ts.find? (·.name == n) = some t0 ∧ a.find? (·.name == n) = some e ∧
+      wants excl need e = true ∧
+      withName n (updateScan excl need a ts).kept = [] ∧
+      withName n (updateScan excl need a ts).replaced = [t0] ∧
+      withName n (updateScan excl need a ts).pending = []) ∨
+    (∃ t0 e, ts.find? (·.name == n) = some t0 ∧ a.find? (·.name == n) = some e ∧
+      wants excl need e = false ∧
+      withName n (updateScan excl need a ts).kept = withName n a ∧
+      withName n (updateScan excl need a ts).replaced = [] ∧
+      withName n (updateScan excl need a ts).pending = []) := by
+  unfold updateScan
+  have hfd := find_dedupNames n ts
+  cases hft : ts.find? (·.name == n) with
+  | none =>
+    rw [hft] at hfd
+    have hp : n ∉ names (dedupNames ts) := find_name_none hfd
+    have := scan_keeping excl need n a { pending := dedupNames ts } (by simp) hp
+    left
+    rw [this.1, this.2.1, this.2.2, withName_eq_nil.2 hp]
+    simp
+  | some t0 =>
+    rw [hft] at hfd
+    have hwd : withName n (dedupNames ts) = [t0] := by rw [withName_dedupNames, hft]; rfl
+    right
+    cases hfa : a.find? (·.name == n) with
+    | none =>
+      have := scan_absent excl need n a { pending := dedupNames ts } (find_name_none hfa)
+      left
+      rw [this.1, this.2.1, this.2.2, hwd]; simp
+    | some e =>
+      right
+      cases hw : wants excl need e
+      · have := scan_pending_skips excl need n t0 e hw a { pending := dedupNames ts } (by simp)
+          hfd hfa
+        right
+        rw [this.1, this.2.1, this.2.2]; simp [hw]
+      · have := scan_pending_wants excl need n t0 e hw a { pending := dedupNames ts } (by simp)
+          hfd hfa
+        left
+        rw [this.1, this.2.1, this.2.2]; simp [hw]
+
+/-! ### `update`, one name at a time -/
+
+/-- what `update` does to the name `n`, as a function of the first target and the first archived
+    entry of that name -/
+def updateName (excl : Bytes → Bool) (need : UEntry → Bool) (a ts : List UEntry) (n : Bytes) :
+    List UEntry :=
+  match ts.find? (·.name == n) with
+  | none => withName n a
+  | some t0 =>
+    match a.find? (·.name == n) with
+    | none => [t0]
+    | some e => if wants excl need e then [t0] else withName n a
+
+/-- **The central fact**, for every archive and every walker result (no uniqueness assumed): the
+    entries of the result named `n` are the archived ones, unchanged and in order, when `n` is not
+    a target or the first archived entry of that name is excluded / filtered out; otherwise they
+    are exactly the first target of that name. -/
+theorem update_withName (excl : Bytes → Bool) (need : UEntry → Bool) (a ts : List UEntry)
+    (n : Bytes) : withName n (updateOp excl need a ts) = updateName excl need a ts n := by
+  rw [updateOp_eq_scan, updateName]
+  simp only [withName_append]
+  rcases update_parts excl need a ts n with ⟨hft, hk, hr, hp⟩ | ⟨t0, hft, hfa, hk, hr, hp⟩ |
+    ⟨t0, e, hft, hfa, hw, hk, hr, hp⟩ | ⟨t0, e, hft, hfa, hw, hk, hr, hp⟩ <;>
+    rw [hk, hr, hp, hft]
+  · simp
+  · simp [hfa]
+  · simp [hfa, hw]
+  · simp [hfa, hw]
+
+theorem count_names_eq (n : Bytes) (l : List UEntry) :
+    (l.filter (fun e => e.name == n)).length = (names l).count n := by
+  rw [← List.countP_eq_length_filter, List.count_eq_countP, names, List.countP_map]
+  rfl
+
+/-- update: a target whose first archived entry (if there is one) is to be re-created is present
+    exactly once: as the first target of its name. -/
+theorem update_target_exact (excl : Bytes → Bool) (need : UEntry → Bool) (a ts : List UEntry)
+    (n : Bytes) (t0 : UEntry) (h0 : ts.find? (·.name == n) = some t0)
+    (hcur : ∀ e, a.find? (·.name == n) = some e → (excl e.name = false ∧ need e = true)) :
+    (updateOp excl need a ts).filter (fun e => e.name == n) = [t0] := by
+  show withName n (updateOp excl need a ts) = [t0]
+  rw [update_withName, updateName, h0]
+  cases hfa : a.find? (·.name == n) with
+  | none => rfl
+  | some e => simp only; rw [if_pos ((wants_iff excl need e).2 (hcur e hfa))]
+
+/-- every element of a list has a first element of its name -/
+theorem exists_first_of_mem {t : UEntry} {ts : List UEntry} (h : t ∈ ts) :
+    ∃ t0, ts.find? (·.name == t.name) = some t0 := by
+  cases hf : ts.find? (·.name == t.name) with
+  | none => exact absurd (mem_names_of_mem h) (find_name_none hf)
+  | some t0 => exact ⟨t0, rfl⟩
+
+/-- update: every target whose first archived entry is to be re-created is present exactly once —
+    whatever the number of archived entries and of targets of that name. -/
+theorem update_target_once (excl : Bytes → Bool) (need : UEntry → Bool) (a ts : List UEntry)
+    (t : UEntry) (h : t ∈ ts)
+    (hcur : ∀ e, a.find? (·.name == t.name) = some e → (excl e.name = false ∧ need e = true)) :
+    ((updateOp excl need a ts).filter (fun e => e.name == t.name)).length = 1 := by
+  rcases exists_first_of_mem h with ⟨t0, h0⟩
+  rw [update_target_exact excl need a ts t.name t0 h0 hcur]; rfl
+
+/-- update: … and it is the first target of that name (its CURRENT contents). -/
+theorem update_target_first (excl : Bytes → Bool) (need : UEntry → Bool) (a ts : List UEntry)
+    (t t0 : UEntry) (h0 : ts.find? (·.name == t.name) = some t0)
+    (hcur : ∀ e, a.find? (·.name == t.name) = some e → (excl e.name = false ∧ need e = true)) :
+    t0 ∈ updateOp excl need a ts := by
+  have := update_target_exact excl need a ts t.name t0 h0 hcur
+  have hm : t0 ∈ (updateOp excl need a ts).filter (fun e => e.name == t.name) := by
+    rw [this]; exact List.mem_singleton.2 rfl
+  exact (List.mem_filter.1 hm).1
+
+/-- in a list with unique names an entry is the first of its name -/
+theorem find_of_nodup {ts : List UEntry} (ht : (names ts).Nodup) {t : UEntry} (h : t ∈ ts) :
+    ts.find? (·.name == t.name) = some t := by
+  induction ts with
+  | nil => cases h
+  | cons x ts ih =>
+    rw [names_cons, List.nodup_cons] at ht
+    rcases List.mem_cons.1 h with rfl | h'
+    · simp
+    · have : x.name ≠ t.name := fun hx => ht.1 (hx ▸ mem_names_of_mem h')
+      rw [List.find?_cons_of_neg (by simp [this])]
+      exact ih ht.2 h'
+
+/-- the old formulation (walker result with unique names): the target itself is present -/
+theorem update_target_current (excl : Bytes → Bool) (need : UEntry → Bool) (a ts : List UEntry)
+    (ht : (names ts).Nodup) (t : UEntry) (h : t ∈ ts)
+    (hcur : ∀ e, a.find? (·.name == t.name) = some e → (excl e.name = false ∧ need e = true)) :
+    t ∈ updateOp excl need a ts :=
+  update_target_first excl need a ts t t (find_of_nodup ht h) hcur
+
+/-- update: when the first archived entry of a name is excluded or does not need updating, ALL
+    archived entries of that name are kept, unchanged and in order, and nothing else has that name. -/
+theorem update_target_kept (excl : Bytes → Bool) (need : UEntry → Bool) (a ts : List UEntry)
+    (e : UEntry) (he : a.find? (·.name == e.name) = some e)
+    (hk : ¬ (excl e.name = false ∧ need e = true)) :
+    (updateOp excl need a ts).filter (fun x => x.name == e.name) =
+      a.filter (fun x => x.name == e.name) := by
+  show withName e.name (updateOp excl need a ts) = withName e.name a
+  rw [update_withName, updateName, he]
+  have hw : wants excl need e = false := by
+    cases h : wants excl need e
+    · rfl
+    · exact absurd ((wants_iff excl need e).1 h) hk
+  cases ts.find? (·.name == e.name) with
+  | none => rfl
+  | some t0 => simp only; rw [hw]; rfl
+
+/-! ### whole-list invariants of the scan -/
+
 /-- membership invariant of the scan -/
 theorem scan_sub (excl : Bytes → Bool) (need : UEntry → Bool) (A T : UEntry → Prop)
     (a : List UEntry) : ∀ s : UState, (∀ x ∈ a, A x) → (∀ x ∈ s.kept, A x) →
@@ -136,170 +645,64 @@ theorem scan_sub (excl : Bytes → Bool) (need : UEntry → Bool) (A T : UEntry 
   | nil => intro s _ hk hr hp; exact ⟨hk, hr, hp⟩
   | cons e a ih =>
     intro s hA hk hr hp
-    have hA' : ∀ x ∈ a, A x := fun x hx => hA x (List.mem_cons_of_mem _ hx)
+    have hA2 : ∀ x ∈ a, A x := fun x hx => hA x (List.mem_cons_of_mem _ hx)
     have hAe : A e := hA e List.mem_cons_self
-    rw [List.foldl_cons]
-    rcases updateStep_cases excl need s e with ⟨_, hs⟩ | ⟨t, hf, _, hs⟩ | ⟨t, hf, _, hs⟩ <;>
-      rw [hs] <;> apply ih _ hA'
-    · intro x hx; rcases List.mem_append.1 hx with h | h
+    have hke : ∀ x ∈ s.kept ++ [e], A x := by
+      intro x hx; rcases List.mem_append.1 hx with h | h
       · exact hk x h
       · rw [List.mem_singleton.1 h]; exact hAe
-    · exact hr
-    · exact hp
-    · exact hk
-    · intro x hx; rcases List.mem_append.1 hx with h | h
+    have hpf : ∀ x ∈ s.pending.filter (·.name != e.name), T x :=
+      fun x hx => hp x (List.mem_filter.1 hx).1
+    rw [List.foldl_cons]
+    rcases updateStep_cases excl need s e with ⟨_, hs⟩ | ⟨_, _, hs⟩ | ⟨t, _, hf, _, hs⟩ |
+      ⟨t, _, hf, _, hs⟩ <;> rw [hs]
+    · exact ih s hA2 hk hr hp
+    · exact ih { s with kept := s.kept ++ [e] } hA2 hke hr hp
+    · refine ih { kept := s.kept, replaced := s.replaced ++ [t],
+                  pending := s.pending.filter (·.name != e.name), done := e.name :: s.done }
+        hA2 hk ?_ hpf
+      intro x hx; rcases List.mem_append.1 hx with h | h
       · exact hr x h
       · rw [List.mem_singleton.1 h]; exact hp t (find_name_spec hf).1
-    · intro x hx; exact hp x (List.mem_filter.1 hx).1
-    · intro x hx; rcases List.mem_append.1 hx with h | h
-      · exact hk x h
-      · rw [List.mem_singleton.1 h]; exact hAe
-    · exact hr
-    · intro x hx; exact hp x (List.mem_filter.1 hx).1
+    · exact ih { kept := s.kept ++ [e], replaced := s.replaced,
+                 pending := s.pending.filter (·.name != e.name), done := s.done } hA2 hke hr hpf
+
 /-- the untargeted part of `kept` is the untargeted part of what was scanned -/
 theorem scan_kept_filter (excl : Bytes → Bool) (need : UEntry → Bool) (ts : List UEntry)
-    (a : List UEntry) : ∀ s : UState, (∀ x ∈ s.pending, x ∈ ts) →
+    (a : List UEntry) : ∀ s : UState, (∀ x ∈ s.pending, x ∈ ts) → (∀ m ∈ s.done, m ∈ names ts) →
       (a.foldl (updateStep excl need) s).kept.filter (fun e => !(names ts).contains e.name) =
         s.kept.filter (fun e => !(names ts).contains e.name) ++
           a.filter (fun e => !(names ts).contains e.name) := by
   induction a with
-  | nil => intro s _; simp
+  | nil => intro s _ _; simp
   | cons e a ih =>
-    intro s hp
+    intro s hp hd
+    have hpf : ∀ x ∈ s.pending.filter (·.name != e.name), x ∈ ts :=
+      fun x hx => hp x (List.mem_filter.1 hx).1
     rw [List.foldl_cons]
-    rcases updateStep_cases excl need s e with ⟨_, hs⟩ | ⟨t, hf, _, hs⟩ | ⟨t, hf, _, hs⟩
-    · rw [hs]; refine (ih { s with kept := s.kept ++ [e] } (fun x hx => hp x hx)).trans ?_
+    rcases updateStep_cases excl need s e with ⟨hin, hs⟩ | ⟨_, _, hs⟩ | ⟨t, _, hf, _, hs⟩ |
+      ⟨t, _, hf, _, hs⟩ <;> rw [hs]
+    · refine (ih s hp hd).trans ?_
+      simp [hd _ hin]
+    · refine (ih { s with kept := s.kept ++ [e] } hp hd).trans ?_
       simp only [List.filter_append, List.filter_cons, List.filter_nil]
       split <;> simp
     · have ht := find_name_spec hf
       have hin : e.name ∈ names ts := by
         rw [← ht.2]; exact mem_names_of_mem (hp t ht.1)
-      rw [hs]; refine (ih _ (fun x hx => hp x (List.mem_filter.1 hx).1)).trans ?_
-      simp [hin]
-    · rw [hs]; refine (ih _ (fun x hx => hp x (List.mem_filter.1 hx).1)).trans ?_
+      refine (ih { kept := s.kept, replaced := s.replaced ++ [t],
+                   pending := s.pending.filter (·.name != e.name), done := e.name :: s.done }
+        hpf ?_).trans ?_
+      · intro m hm; rcases List.mem_cons.1 hm with rfl | hm
+        · exact hin
+        · exact hd m hm
+      · simp [hin]
+    · refine (ih { kept := s.kept ++ [e], replaced := s.replaced,
+                   pending := s.pending.filter (·.name != e.name), done := s.done } hpf hd).trans ?_
       simp only [List.filter_append, List.filter_cons, List.filter_nil]
       split <;> simp
 
-/-- entries that are not to be replaced end up in `kept` -/
-theorem scan_kept_mono (excl : Bytes → Bool) (need : UEntry → Bool) (e : UEntry)
-    (a : List UEntry) : ∀ s : UState, e ∈ s.kept → e ∈ (a.foldl (updateStep excl need) s).kept := by
-  induction a with
-  | nil => intro s h; exact h
-  | cons x a ih =>
-    intro s h
-    rw [List.foldl_cons]
-    rcases updateStep_cases excl need s x with ⟨_, hs⟩ | ⟨t, _, _, hs⟩ | ⟨t, _, _, hs⟩ <;>
-      rw [hs] <;> apply ih <;> simp [h]
-
-theorem scan_kept_mem (excl : Bytes → Bool) (need : UEntry → Bool) (e : UEntry)
-    (hk : ¬ (excl e.name = false ∧ need e = true))
-    (a : List UEntry) : ∀ s : UState, e ∈ a → e ∈ (a.foldl (updateStep excl need) s).kept := by
-  induction a with
-  | nil => intro s h; cases h
-  | cons x a ih =>
-    intro s h
-    rw [List.foldl_cons]
-    rcases List.mem_cons.1 h with rfl | h'
-    · apply scan_kept_mono
-      rcases updateStep_cases excl need s e with ⟨_, hs⟩ | ⟨t, _, hc, hs⟩ | ⟨t, _, _, hs⟩
-      · rw [hs]; simp
-      · exact absurd hc hk
-      · rw [hs]; simp
-    · exact ih _ h'
-
-/-- a pending target all of whose old versions are to be replaced survives with its current
-    contents (in `replaced` or still in `pending`) -/
-theorem scan_current (excl : Bytes → Bool) (need : UEntry → Bool) (t : UEntry)
-    (a : List UEntry) : ∀ s : UState, (names s.pending).Nodup →
-      (∀ e ∈ a, e.name = t.name → (excl e.name = false ∧ need e = true)) →
-      (t ∈ s.replaced ∨ t ∈ s.pending) →
-      (t ∈ (a.foldl (updateStep excl need) s).replaced ∨
-        t ∈ (a.foldl (updateStep excl need) s).pending) := by
-  induction a with
-  | nil => intro s _ _ h; exact h
-  | cons e a ih =>
-    intro s hnd hcur h
-    have hcur' : ∀ x ∈ a, x.name = t.name → (excl x.name = false ∧ need x = true) :=
-      fun x hx => hcur x (List.mem_cons_of_mem _ hx)
-    have hnd' : (names (s.pending.filter (·.name != e.name))).Nodup :=
-      List.Nodup.sublist (names_filter_ne_sublist _ _) hnd
-    rw [List.foldl_cons]
-    rcases updateStep_cases excl need s e with ⟨_, hs⟩ | ⟨t', hf, _, hs⟩ | ⟨t', hf, hc, hs⟩
-    · rw [hs]; exact ih _ hnd hcur' h
-    · rw [hs]; apply ih _ hnd' hcur'
-      rcases h with h | h
-      · left; simp [h]
-      · by_cases hn : e.name = t.name
-        · have ht' := find_name_spec hf
-          have : t' = t := eq_of_name_eq hnd ht'.1 h (ht'.2.trans hn)
-          left; simp [this]
-        · right; simp only [List.mem_filter, bne_iff_ne]
-          exact ⟨h, fun h' => hn h'.symm⟩
-    · rw [hs]; apply ih _ hnd' hcur'
-      rcases h with h | h
-      · left; exact h
-      · by_cases hn : e.name = t.name
-        · exact absurd (hcur e List.mem_cons_self hn) hc
-        · right; simp only [List.mem_filter, bne_iff_ne]
-          exact ⟨h, fun h' => hn h'.symm⟩
-
-/-- name counting through the scan -/
-theorem scan_count (excl : Bytes → Bool) (need : UEntry → Bool) (n : Bytes)
-    (a : List UEntry) : ∀ s : UState, (names a).Nodup → (names s.pending).Nodup →
-      (names (a.foldl (updateStep excl need) s).kept).count n +
-        (names (a.foldl (updateStep excl need) s).replaced).count n +
-        (names (a.foldl (updateStep excl need) s).pending).count n =
-      (names s.kept).count n + (names s.replaced).count n +
-        (if n ∈ names s.pending then 1 else (names a).count n) := by
-  induction a with
-  | nil =>
-    intro s _ hnd
-    by_cases hn : n ∈ names s.pending
-    · have h1 := List.nodup_iff_count.1 hnd n
-      have h2 := List.count_pos_iff.2 hn
-      simp [hn]; omega
-    · simp [hn, List.count_eq_zero.2 hn]
-  | cons e a ih =>
-    intro s ha hnd
-    simp only [names_cons, List.nodup_cons] at ha
-    have hnd' : (names (s.pending.filter (·.name != e.name))).Nodup :=
-      List.Nodup.sublist (names_filter_ne_sublist _ _) hnd
-    rw [List.foldl_cons]
-    rcases updateStep_cases excl need s e with ⟨hf, hs⟩ | ⟨t, hf, _, hs⟩ | ⟨t, hf, _, hs⟩
-    · rw [hs]; refine (ih { s with kept := s.kept ++ [e] } ha.2 hnd).trans ?_
-      have hne := find_name_none hf
-      by_cases hn : e.name = n
-      · subst hn
-        simp [hne]; omega
-      · have : (e.name == n) = false := by simp [hn]
-        simp [List.count_cons, this]
-    · rw [hs]; refine (ih _ ha.2 hnd').trans ?_
-      have ht := find_name_spec hf
-      have hin : e.name ∈ names s.pending := ht.2 ▸ mem_names_of_mem ht.1
-      by_cases hn : e.name = n
-      · subst hn
-        have h0 := List.count_eq_zero.2 ha.1
-        simp [mem_names_filter_ne, hin, h0, ht.2]; omega
-      · have hb : (e.name == n) = false := by simp [hn]
-        have hb' : (t.name == n) = false := by simp [ht.2, hn]
-        have hn' : n ≠ e.name := fun h => hn h.symm
-        simp [mem_names_filter_ne, hn', List.count_cons, hb, hb']
-    · rw [hs]; refine (ih _ ha.2 hnd').trans ?_
-      have ht := find_name_spec hf
-      have hin : e.name ∈ names s.pending := ht.2 ▸ mem_names_of_mem ht.1
-      by_cases hn : e.name = n
-      · subst hn
-        have h0 := List.count_eq_zero.2 ha.1
-        simp [mem_names_filter_ne, hin, h0]; omega
-      · have hb : (e.name == n) = false := by simp [hn]
-        have hn' : n ≠ e.name := fun h => hn h.symm
-        simp [mem_names_filter_ne, hn', List.count_cons, hb]
-/-! ### `update` -/
-
-theorem count_names_eq (n : Bytes) (l : List UEntry) :
-    (l.filter (fun e => e.name == n)).length = (names l).count n := by
-  rw [← List.countP_eq_length_filter, List.count_eq_countP, names, List.countP_map]
-  rfl
+/-! ### `update`, whole-list statements -/
 
 /-- update: every entry whose name is not among the targets is still there, unchanged, in the
     same relative order, and nothing else with such a name appears. -/
@@ -307,9 +710,11 @@ theorem update_untouched (excl : Bytes → Bool) (need : UEntry → Bool) (a ts 
     (updateOp excl need a ts).filter (fun e => !(names ts).contains e.name) =
       a.filter (fun e => !(names ts).contains e.name) := by
   unfold updateOp
-  have hsub := scan_sub excl need (fun _ => True) (fun x => x ∈ ts) a { pending := ts }
-    (fun _ _ => trivial) (fun _ _ => trivial) (fun x hx => by cases hx) (fun x hx => hx)
-  have hk := scan_kept_filter excl need ts a { pending := ts } (fun x hx => hx)
+  have hD : ∀ x ∈ dedupNames ts, x ∈ ts := fun x hx => dedupNames_sub hx
+  have hsub := scan_sub excl need (fun _ => True) (fun x => x ∈ ts) a { pending := dedupNames ts }
+    (fun _ _ => trivial) (fun _ _ => trivial) (fun x hx => by cases hx) hD
+  have hk := scan_kept_filter excl need ts a { pending := dedupNames ts } hD
+    (fun m hm => by cases hm)
   have hnil : ∀ l : List UEntry, (∀ x ∈ l, x ∈ ts) →
       l.filter (fun e => !(names ts).contains e.name) = [] := by
     intro l hl
@@ -324,65 +729,495 @@ theorem update_sound (excl : Bytes → Bool) (need : UEntry → Bool) (a ts : Li
     ∀ e ∈ updateOp excl need a ts, e ∈ a ∨ e ∈ ts := by
   intro e he
   unfold updateOp at he
-  have hsub := scan_sub excl need (fun x => x ∈ a) (fun x => x ∈ ts) a { pending := ts }
-    (fun _ h => h) (fun x hx => by cases hx) (fun x hx => by cases hx) (fun x hx => hx)
+  have hsub := scan_sub excl need (fun x => x ∈ a) (fun x => x ∈ ts) a { pending := dedupNames ts }
+    (fun _ h => h) (fun x hx => by cases hx) (fun x hx => by cases hx)
+    (fun x hx => dedupNames_sub hx)
   simp only [List.mem_append] at he
   rcases he with (h | h) | h
   · exact Or.inl (hsub.1 e h)
   · exact Or.inr (hsub.2.1 e h)
   · exact Or.inr (hsub.2.2 e h)
 
-/-- update: a target that is new (not in the archive) or that is replaced (not excluded, needs
-    update) is present with its CURRENT contents. -/
-theorem update_target_current (excl : Bytes → Bool) (need : UEntry → Bool) (a ts : List UEntry)
-    (ha : (names a).Nodup) (ht : (names ts).Nodup) (t : UEntry) (h : t ∈ ts)
-    (hcur : ∀ e ∈ a, e.name = t.name → (excl e.name = false ∧ need e = true)) :
-    t ∈ updateOp excl need a ts := by
-  have _ := ha
-  unfold updateOp
-  have := scan_current excl need t a { pending := ts } ht hcur (Or.inr h)
-  simp only [List.mem_append]
-  rcases this with h | h
-  · exact Or.inl (Or.inr h)
-  · exact Or.inr h
-
 /-- name counting for `update` -/
-theorem update_count (excl : Bytes → Bool) (need : UEntry → Bool) (a ts : List UEntry)
-    (ha : (names a).Nodup) (ht : (names ts).Nodup) (n : Bytes) :
-    (names (updateOp excl need a ts)).count n =
-      if n ∈ names ts then 1 else (names a).count n := by
-  unfold updateOp
-  have := scan_count excl need n a { pending := ts } ha ht
-  simp only [names_append, List.count_append]
-  simpa using this
+theorem update_count (excl : Bytes → Bool) (need : UEntry → Bool) (a ts : List UEntry) (n : Bytes) :
+    (names (updateOp excl need a ts)).count n = (updateName excl need a ts n).length := by
+  rw [← count_names_eq, ← update_withName]; rfl
 
-/-- update: every target name is present exactly once. -/
-theorem update_target_once (excl : Bytes → Bool) (need : UEntry → Bool) (a ts : List UEntry)
-    (ha : (names a).Nodup) (ht : (names ts).Nodup) (t : UEntry) (h : t ∈ ts) :
-    ((updateOp excl need a ts).filter (fun e => e.name == t.name)).length = 1 := by
-  rw [count_names_eq, update_count excl need a ts ha ht, if_pos (mem_names_of_mem h)]
+theorem updateName_length_le (excl : Bytes → Bool) (need : UEntry → Bool) (a ts : List UEntry)
+    (n : Bytes) : (updateName excl need a ts n).length ≤ max 1 ((names a).count n) := by
+  have hc : (withName n a).length = (names a).count n := count_names_eq n a
+  unfold updateName
+  split
+  · omega
+  · split
+    · simp only [List.length_singleton]; omega
+    · split
+      · simp only [List.length_singleton]; omega
+      · omega
 
-/-- update: a target whose old entry is excluded or does not need updating keeps the OLD entry. -/
-theorem update_target_kept (excl : Bytes → Bool) (need : UEntry → Bool) (a ts : List UEntry)
-    (ha : (names a).Nodup) (e : UEntry) (he : e ∈ a) (hin : (names ts).contains e.name = true)
-    (hk : ¬ (excl e.name = false ∧ need e = true)) : e ∈ updateOp excl need a ts := by
-  have _ := ha; have _ := hin
-  unfold updateOp
-  have := scan_kept_mem excl need e hk a { pending := ts } he
-  simp only [List.mem_append]
-  exact Or.inl (Or.inl this)
-
-/-- name uniqueness is an invariant of `update`. -/
+/-- name uniqueness of the ARCHIVE is an invariant of `update` (the walker result may repeat
+    names). -/
 theorem update_nodup (excl : Bytes → Bool) (need : UEntry → Bool) (a ts : List UEntry)
-    (ha : (names a).Nodup) (ht : (names ts).Nodup) : (names (updateOp excl need a ts)).Nodup := by
+    (ha : (names a).Nodup) : (names (updateOp excl need a ts)).Nodup := by
   rw [List.nodup_iff_count]
   intro n
-  rw [update_count excl need a ts ha ht]
-  split
-  · exact Nat.le_refl 1
-  · exact List.nodup_iff_count.1 ha n
+  rw [update_count]
+  have h1 := updateName_length_le excl need a ts n
+  have h2 := List.nodup_iff_count.1 ha n
+  omega
 
-/-! ### why the uniqueness hypotheses are needed (concrete instances) -/
+/-- a name is in the result iff it is archived or a target -/
+theorem mem_names_update (excl : Bytes → Bool) (need : UEntry → Bool) (a ts : List UEntry)
+    (n : Bytes) : n ∈ names (updateOp excl need a ts) ↔ n ∈ names a ∨ n ∈ names ts := by
+  have h1 : n ∈ names (updateOp excl need a ts) ↔ updateName excl need a ts n ≠ [] := by
+    rw [← update_withName, Ne, withName_eq_nil, Classical.not_not]
+  rw [h1]
+  unfold updateName
+  cases hft : ts.find? (·.name == n) with
+  | none =>
+    have := find_name_none hft
+    simp only [Ne, withName_eq_nil, Classical.not_not]
+    exact ⟨Or.inl, fun h => h.resolve_right this⟩
+  | some t0 =>
+    have ht : n ∈ names ts := (find_name_spec hft).2 ▸ mem_names_of_mem (find_name_spec hft).1
+    cases hfa : a.find? (·.name == n) with
+    | none => simp [ht]
+    | some e =>
+      have hae : n ∈ names a := (find_name_spec hfa).2 ▸ mem_names_of_mem (find_name_spec hfa).1
+      simp only [ht, or_true, iff_true]
+      split
+      · simp
+      · exact fun h => withName_eq_nil.1 h hae
+
+/-! ### running `update` twice -/
+
+/-- two lists with the same entries under every name are permutations of each other -/
+theorem perm_of_withName_eq {l₁ l₂ : List UEntry} (h : ∀ n, withName n l₁ = withName n l₂) :
+    l₁.Perm l₂ := by
+  rw [List.perm_iff_count]
+  intro x
+  have hc : ∀ l : List UEntry, (withName x.name l).count x = l.count x := by
+    intro l; unfold withName; exact List.count_filter (by simp)
+  rw [← hc l₁, ← hc l₂, h]
+
+/-- … and equal as soon as their name sequences agree -/
+theorem eq_of_withName_eq : ∀ {l₁ l₂ : List UEntry}, (∀ n, withName n l₁ = withName n l₂) →
+    names l₁ = names l₂ → l₁ = l₂
+  | [], [], _, _ => rfl
+  | [], _ :: _, _, hn => by simp at hn
+  | _ :: _, [], _, hn => by simp at hn
+  | x :: l₁, y :: l₂, h, hn => by
+    rw [names_cons, names_cons, List.cons.injEq] at hn
+    have hx := h x.name
+    rw [withName_cons_eq rfl, withName_cons_eq hn.1.symm, List.cons.injEq] at hx
+    have hxy : x = y := hx.1
+    subst hxy
+    congr 1
+    apply eq_of_withName_eq _ hn.2
+    intro n
+    have := h n
+    by_cases hxn : x.name = n
+    · rw [withName_cons_eq hxn, withName_cons_eq hxn, List.cons.injEq] at this; exact this.2
+    · rw [withName_cons_ne hxn, withName_cons_ne hxn] at this; exact this
+
+/-- a second identical `update` changes nothing under any name -/
+theorem update_twice_withName (excl : Bytes → Bool) (need : UEntry → Bool) (a ts : List UEntry)
+    (n : Bytes) :
+    withName n (updateOp excl need (updateOp excl need a ts) ts) =
+      withName n (updateOp excl need a ts) := by
+  have hb := update_withName excl need a ts n
+  rw [update_withName excl need (updateOp excl need a ts) ts n]
+  have hfb := find_eq_head_withName n (updateOp excl need a ts)
+  have hfa := find_eq_head_withName n a
+  unfold updateName at hb ⊢
+  cases hft : ts.find? (·.name == n) with
+  | none => rfl
+  | some t0 =>
+    rw [hft] at hb
+    simp only at hb ⊢
+    cases hfa2 : a.find? (·.name == n) with
+    | none =>
+      rw [hfa2] at hb; simp only at hb
+      rw [hb] at hfb ⊢; rw [hfb]; simp
+    | some e =>
+      rw [hfa2] at hb; simp only at hb
+      cases hw : wants excl need e
+      · rw [hw] at hb; simp only [Bool.false_eq_true, if_false] at hb
+        rw [hb, ← hfa, hfa2] at hfb
+        rw [hfb]; simp only [hw, Bool.false_eq_true, if_false]
+      · rw [hw] at hb; simp only [if_true] at hb
+        rw [hb] at hfb ⊢; rw [hfb]; simp
+
+/-- **Idempotence up to order**: a second identical `update` yields the same entries (as a
+    multiset), for every archive and walker result. -/
+theorem update_twice_perm (excl : Bytes → Bool) (need : UEntry → Bool) (a ts : List UEntry) :
+    (updateOp excl need (updateOp excl need a ts) ts).Perm (updateOp excl need a ts) :=
+  perm_of_withName_eq (update_twice_withName excl need a ts)
+
+/-! ### scanning a list whose entries are all copied / all matched by their own target -/
+
+theorem find_filter_of {p : List UEntry} {g f : UEntry → Bool} {q : UEntry}
+    (h : p.find? g = some q) (hf : f q = true) : (p.filter f).find? g = some q := by
+  induction p with
+  | nil => simp at h
+  | cons x p ih =>
+    by_cases hg : g x = true
+    · rw [List.find?_cons_of_pos hg] at h
+      obtain rfl : x = q := Option.some.inj h
+      rw [List.filter_cons_of_pos hf, List.find?_cons_of_pos hg]
+    · rw [List.find?_cons_of_neg hg] at h
+      by_cases hfx : f x = true
+      · rw [List.filter_cons_of_pos hfx, List.find?_cons_of_neg hg]; exact ih h
+      · rw [List.filter_cons_of_neg hfx]; exact ih h
+
+theorem filter_not_names_cons (e : UEntry) (K p : List UEntry) :
+    p.filter (fun t => !(names (e :: K)).contains t.name) =
+      (p.filter (·.name != e.name)).filter (fun t => !(names K).contains t.name) := by
+  rw [List.filter_filter]
+  apply List.filter_congr
+  intro x _
+  by_cases hx : x.name = e.name <;> simp [hx, bne]
+
+theorem filter_ne_of_not_mem {m : Bytes} {p : List UEntry} (h : m ∉ names p) :
+    p.filter (·.name != m) = p := by
+  rw [List.filter_eq_self]
+  intro x hx
+  simp only [bne_iff_ne]
+  exact fun hxm => h (hxm ▸ mem_names_of_mem hx)
+
+/-- a list in which every entry is copied: no name re-created so far, and whenever a name is
+    still pending its first entry in the list is excluded / filtered out -/
+theorem scan_all_kept (excl : Bytes → Bool) (need : UEntry → Bool)
+    (K : List UEntry) : ∀ s : UState, (∀ e ∈ K, e.name ∉ s.done) →
+      (∀ e ∈ K, e.name ∈ names s.pending →
+        ∃ e0, K.find? (·.name == e.name) = some e0 ∧ wants excl need e0 = false) →
+      (K.foldl (updateStep excl need) s).kept = s.kept ++ K ∧
+      (K.foldl (updateStep excl need) s).replaced = s.replaced ∧
+      (K.foldl (updateStep excl need) s).pending =
+        s.pending.filter (fun t => !(names K).contains t.name) ∧
+      (K.foldl (updateStep excl need) s).done = s.done := by
+  induction K with
+  | nil => intro s _ _; simp; exact (List.filter_eq_self.2 (fun _ _ => rfl)).symm
+  | cons e K ih =>
+    intro s hd hk
+    have hd2 : ∀ x ∈ K, x.name ∉ s.done := fun x hx => hd x (List.mem_cons_of_mem _ hx)
+    -- the hypothesis for the tail, once the entries named `e.name` are gone from `pending`
+    have hk2 : ∀ x ∈ K, x.name ∈ names (s.pending.filter (·.name != e.name)) →
+        ∃ e0, K.find? (·.name == x.name) = some e0 ∧ wants excl need e0 = false := by
+      intro x hx hin
+      rw [mem_names_filter_ne] at hin
+      rcases hk x (List.mem_cons_of_mem _ hx) hin.1 with ⟨e0, h0, hw0⟩
+      have : e.name ≠ x.name := fun h => hin.2 h.symm
+      rw [List.find?_cons_of_neg (by simp [this])] at h0
+      exact ⟨e0, h0, hw0⟩
+    rw [List.foldl_cons, filter_not_names_cons]
+    rcases updateStep_cases excl need s e with ⟨hin, _⟩ | ⟨_, hf, hs⟩ | ⟨t, _, hf, hw, _⟩ |
+      ⟨t, _, hf, _, hs⟩
+    · exact absurd hin (hd e List.mem_cons_self)
+    · have hnp := find_name_none hf
+      rw [hs]
+      have := ih { s with kept := s.kept ++ [e] } hd2
+        (fun x hx hin => hk2 x hx (by rw [filter_ne_of_not_mem hnp]; exact hin))
+      rw [filter_ne_of_not_mem hnp]
+      simpa using this
+    · have ht := find_name_spec hf
+      rcases hk e List.mem_cons_self (ht.2 ▸ mem_names_of_mem ht.1) with ⟨e0, h0, hw0⟩
+      rw [List.find?_cons_of_pos (by simp)] at h0
+      obtain rfl : e = e0 := Option.some.inj h0
+      rw [hw] at hw0; cases hw0
+    · rw [hs]
+      have := ih { kept := s.kept ++ [e], replaced := s.replaced,
+                   pending := s.pending.filter (·.name != e.name), done := s.done } hd2 hk2
+      simpa using this
+
+/-- a list of distinct names in which every entry finds ITSELF as its pending target: each entry
+    is copied (excluded / filtered out) or re-created by itself -/
+theorem scan_own_targets (excl : Bytes → Bool) (need : UEntry → Bool)
+    (Q : List UEntry) : ∀ s : UState, (names Q).Nodup → (∀ q ∈ Q, q.name ∉ s.done) →
+      (∀ q ∈ Q, s.pending.find? (·.name == q.name) = some q) →
+      (Q.foldl (updateStep excl need) s).kept =
+        s.kept ++ Q.filter (fun q => !wants excl need q) ∧
+      (Q.foldl (updateStep excl need) s).replaced = s.replaced ++ Q.filter (wants excl need) ∧
+      (Q.foldl (updateStep excl need) s).pending =
+        s.pending.filter (fun t => !(names Q).contains t.name) := by
+  induction Q with
+  | nil => intro s _ _ _; simp; exact (List.filter_eq_self.2 (fun _ _ => rfl)).symm
+  | cons e Q ih =>
+    intro s hnd hd hp
+    rw [names_cons, List.nodup_cons] at hnd
+    have hne : ∀ q ∈ Q, q.name ≠ e.name := fun q hq h => hnd.1 (h ▸ mem_names_of_mem hq)
+    have hd2 : ∀ q ∈ Q, q.name ∉ s.done := fun q hq => hd q (List.mem_cons_of_mem _ hq)
+    have hp2 : ∀ q ∈ Q, (s.pending.filter (·.name != e.name)).find? (·.name == q.name) = some q :=
+      fun q hq => by rw [find_name_filter_ne (hne q hq)]; exact hp q (List.mem_cons_of_mem _ hq)
+    rw [List.foldl_cons, filter_not_names_cons]
+    rcases updateStep_cases excl need s e with ⟨hin, _⟩ | ⟨_, hf, _⟩ | ⟨t, _, hf, hw, hs⟩ |
+      ⟨t, _, hf, hw, hs⟩
+    · exact absurd hin (hd e List.mem_cons_self)
+    · rw [hp e List.mem_cons_self] at hf; cases hf
+    · rw [hp e List.mem_cons_self] at hf
+      obtain rfl : e = t := Option.some.inj hf
+      rw [hs]
+      have := ih { kept := s.kept, replaced := s.replaced ++ [e],
+                   pending := s.pending.filter (·.name != e.name), done := e.name :: s.done }
+        hnd.2 (fun q hq => by simp [hd2 q hq, hne q hq]) hp2
+      simpa [List.filter_cons, hw] using this
+    · rw [hs]
+      have := ih { kept := s.kept ++ [e], replaced := s.replaced,
+                   pending := s.pending.filter (·.name != e.name), done := s.done }
+        hnd.2 hd2 hp2
+      simpa [List.filter_cons, hw] using this
+
+/-! ### the exact result of a second identical `update` -/
+
+theorem scan_kept_first (excl : Bytes → Bool) (need : UEntry → Bool) (a ts : List UEntry) :
+    ∀ e ∈ (updateScan excl need a ts).kept, e.name ∈ names (dedupNames ts) →
+      ∃ e0, (updateScan excl need a ts).kept.find? (·.name == e.name) = some e0 ∧
+        wants excl need e0 = false := by
+  intro e he hin
+  rw [mem_names_dedupNames] at hin
+  have hmem : e ∈ withName e.name (updateScan excl need a ts).kept := mem_withName.2 ⟨he, rfl⟩
+  rcases update_parts excl need a ts e.name with ⟨hft, _⟩ | ⟨t0, _, _, hk, _⟩ |
+    ⟨t0, e0, _, _, _, hk, _⟩ | ⟨t0, e0, _, hfa, hw, hk, _⟩
+  · exact absurd hin (find_name_none hft)
+  · rw [hk] at hmem; cases hmem
+  · rw [hk] at hmem; cases hmem
+  · exact ⟨e0, by rw [find_eq_head_withName, hk, ← find_eq_head_withName, hfa], hw⟩
+
+theorem scan_new_nodup (excl : Bytes → Bool) (need : UEntry → Bool) (a ts : List UEntry) :
+    (names ((updateScan excl need a ts).replaced ++ (updateScan excl need a ts).pending)).Nodup := by
+  rw [List.nodup_iff_count]
+  intro n
+  rw [← count_names_eq]
+  show (withName n _).length ≤ 1
+  rw [withName_append]
+  rcases update_parts excl need a ts n with ⟨_, _, hr, hp⟩ | ⟨t0, _, _, _, hr, hp⟩ |
+    ⟨t0, e0, _, _, _, _, hr, hp⟩ | ⟨t0, e0, _, _, _, _, hr, hp⟩ <;> rw [hr, hp] <;> simp
+
+theorem scan_new_sub (excl : Bytes → Bool) (need : UEntry → Bool) (a ts : List UEntry) :
+    ∀ q ∈ (updateScan excl need a ts).replaced ++ (updateScan excl need a ts).pending,
+      q ∈ dedupNames ts := by
+  have hsub := scan_sub excl need (fun _ => True) (fun x => x ∈ dedupNames ts) a
+    { pending := dedupNames ts } (fun _ _ => trivial) (fun _ _ => trivial)
+    (fun x hx => by cases hx) (fun x hx => hx)
+  intro q hq
+  rcases List.mem_append.1 hq with h | h
+  · exact hsub.2.1 q h
+  · exact hsub.2.2 q h
+
+theorem scan_new_not_kept (excl : Bytes → Bool) (need : UEntry → Bool) (a ts : List UEntry) :
+    ∀ q ∈ (updateScan excl need a ts).replaced ++ (updateScan excl need a ts).pending,
+      q.name ∉ names (updateScan excl need a ts).kept := by
+  intro q hq
+  have hmem : q ∈ withName q.name
+      ((updateScan excl need a ts).replaced ++ (updateScan excl need a ts).pending) :=
+    mem_withName.2 ⟨hq, rfl⟩
+  rw [withName_append] at hmem
+  rcases update_parts excl need a ts q.name with ⟨_, _, hr, hp⟩ | ⟨t0, _, _, hk, _⟩ |
+    ⟨t0, e0, _, _, _, hk, _⟩ | ⟨t0, e0, _, _, _, _, hr, hp⟩
+  · rw [hr, hp] at hmem; cases hmem
+  · exact withName_eq_nil.1 hk
+  · exact withName_eq_nil.1 hk
+  · rw [hr, hp] at hmem; cases hmem
+
+theorem scan_covers (excl : Bytes → Bool) (need : UEntry → Bool) (a ts : List UEntry) :
+    ∀ t ∈ dedupNames ts, t.name ∈ names (updateScan excl need a ts).kept ∨
+      t.name ∈ names ((updateScan excl need a ts).replaced ++ (updateScan excl need a ts).pending) := by
+  intro t ht
+  have hin : t.name ∈ names ts := mem_names_of_mem (dedupNames_sub ht)
+  have hne : ∀ {l : List UEntry} {x : UEntry}, withName t.name l = [x] → t.name ∈ names l := by
+    intro l x h
+    apply Classical.byContradiction
+    intro hn; rw [withName_eq_nil.2 hn] at h; cases h
+  rcases update_parts excl need a ts t.name with ⟨hft, _⟩ | ⟨t0, _, _, _, _, hp⟩ |
+    ⟨t0, e0, _, _, _, _, hr, _⟩ | ⟨t0, e0, _, hfa, _, hk, _⟩
+  · exact absurd hin (find_name_none hft)
+  · right; rw [names_append, List.mem_append]; exact Or.inr (hne hp)
+  · right; rw [names_append, List.mem_append]; exact Or.inl (hne hr)
+  · left
+    have h1 := find_name_spec hfa
+    have : e0 ∈ withName t.name (updateScan excl need a ts).kept := by
+      rw [hk]; exact mem_withName.2 h1
+    exact (mem_withName.1 this).2 ▸ mem_names_of_mem (mem_withName.1 this).1
+
+/-- **The exact result of a second identical `update`**: the first result is `K ++ Q` (`K` the
+    copied entries, `Q` the re-created and new ones); the second run copies `K` again and moves
+    those entries of `Q` that are to be re-created behind the others. -/
+theorem update_twice_shape (excl : Bytes → Bool) (need : UEntry → Bool) (a ts : List UEntry) :
+    ∃ K Q, updateOp excl need a ts = K ++ Q ∧ (∀ q ∈ Q, q ∈ ts) ∧
+      updateOp excl need (updateOp excl need a ts) ts =
+        K ++ Q.filter (fun q => !wants excl need q) ++ Q.filter (wants excl need) := by
+  refine ⟨(updateScan excl need a ts).kept,
+    (updateScan excl need a ts).replaced ++ (updateScan excl need a ts).pending, ?_, ?_, ?_⟩
+  · rw [updateOp_eq_scan, List.append_assoc]
+  · exact fun q hq => dedupNames_sub (scan_new_sub excl need a ts q hq)
+  · generalize hK : (updateScan excl need a ts).kept = K
+    generalize hQ : (updateScan excl need a ts).replaced ++ (updateScan excl need a ts).pending = Q
+    have f1 := scan_kept_first excl need a ts
+    have f2 := scan_new_nodup excl need a ts
+    have f3 := scan_new_sub excl need a ts
+    have f4 := scan_new_not_kept excl need a ts
+    have f5 := scan_covers excl need a ts
+    rw [hK] at f1 f4 f5; rw [hQ] at f2 f3 f4 f5
+    have hb : updateOp excl need a ts = K ++ Q := by
+      rw [updateOp_eq_scan, List.append_assoc, hK, hQ]
+    rw [hb, updateOp_eq_scan]
+    unfold updateScan
+    rw [List.foldl_append]
+    have h1 := scan_all_kept excl need K { pending := dedupNames ts } (by simp) f1
+    have h2 := scan_own_targets excl need Q
+      (K.foldl (updateStep excl need) { pending := dedupNames ts }) f2
+      (by rw [h1.2.2.2]; simp)
+      (by
+        intro q hq
+        rw [h1.2.2.1]
+        apply find_filter_of (find_of_nodup (dedupNames_nodup ts) (f3 q hq))
+        simpa using f4 q hq)
+    rw [h2.1, h2.2.1, h2.2.2, h1.1, h1.2.1, h1.2.2.1]
+    have hnil : ((dedupNames ts).filter (fun t => !(names K).contains t.name)).filter
+        (fun t => !(names Q).contains t.name) = [] := by
+      rw [List.filter_filter, List.filter_eq_nil_iff]
+      intro t ht
+      rcases f5 t ht with h | h <;> simp [h]
+    rw [hnil]; simp
+
+/-- **Full idempotence** when the targets agree on "to be re-created" (all of them would be
+    re-created — e.g. no `--exclude` and no time filter — or none of them — e.g. the time filter
+    finds every freshly written entry up to date). -/
+theorem update_idempotent (excl : Bytes → Bool) (need : UEntry → Bool) (a ts : List UEntry)
+    (h : ∀ t ∈ ts, ∀ u ∈ ts, wants excl need t = wants excl need u) :
+    updateOp excl need (updateOp excl need a ts) ts = updateOp excl need a ts := by
+  rcases update_twice_shape excl need a ts with ⟨K, Q, hb, hQ, h2⟩
+  rw [h2, hb, List.append_assoc]
+  congr 1
+  cases Q with
+  | nil => rfl
+  | cons q Q =>
+    have hq : ∀ x ∈ q :: Q, wants excl need x = wants excl need q :=
+      fun x hx => h x (hQ x hx) q (hQ q List.mem_cons_self)
+    cases hw : wants excl need q
+    · rw [List.filter_eq_self.2 (fun x hx => by simp [hq x hx, hw]),
+        List.filter_eq_nil_iff.2 (fun x hx => by simp [hq x hx, hw])]
+      simp
+    · rw [List.filter_eq_nil_iff.2 (fun x hx => by simp [hq x hx, hw]),
+        List.filter_eq_self.2 (fun x hx => by simp [hq x hx, hw])]
+      simp
+
+/-- the default invocation (no `--exclude`, no time filter) is idempotent -/
+theorem update_idempotent_default (a ts : List UEntry) :
+    updateOp (fun _ => false) (fun _ => true) (updateOp (fun _ => false) (fun _ => true) a ts) ts =
+      updateOp (fun _ => false) (fun _ => true) a ts :=
+  update_idempotent _ _ a ts (fun _ _ _ _ => rfl)
+
+/-- without that hypothesis the ORDER may change (the entries are the same, `update_twice_perm`):
+    `[1]` is re-created again and moves behind the excluded `[2]` -/
+example : updateOp (fun n => n == [2]) (fun _ => true)
+      (updateOp (fun n => n == [2]) (fun _ => true) [] [⟨[1], [10]⟩, ⟨[2], [20]⟩])
+      [⟨[1], [10]⟩, ⟨[2], [20]⟩] = [⟨[2], [20]⟩, ⟨[1], [10]⟩] ∧
+    updateOp (fun n => n == [2]) (fun _ => true) [] [⟨[1], [10]⟩, ⟨[2], [20]⟩] =
+      [⟨[1], [10]⟩, ⟨[2], [20]⟩] := by decide
+
+/-! ### the model as it was before the two repairs, and the inputs on which it was wrong -/
+
+/-- the old scan step: no memory of re-created names -/
+def updateStepLegacy (excl : Bytes → Bool) (need : UEntry → Bool) (s : UState) (e : UEntry) : UState :=
+  match s.pending.find? (·.name == e.name) with
+  | some t =>
+    let pending := s.pending.filter (·.name != e.name)
+    if !excl e.name && need e then { s with replaced := s.replaced ++ [t], pending := pending }
+    else { s with kept := s.kept ++ [e], pending := pending }
+  | none => { s with kept := s.kept ++ [e] }
+
+/-- the old `update`: the walker's result is used as it comes -/
+def updateOpLegacy (excl : Bytes → Bool) (need : UEntry → Bool) (a targets : List UEntry) :
+    List UEntry :=
+  let s := a.foldl (updateStepLegacy excl need) { pending := targets }
+  s.kept ++ s.replaced ++ s.pending
+
+/-- legacy failure 1: create `[q:v1]`, append `[q:v2]`, update `[q:v3]` — the first entry is
+    re-created, the second (stale `v2`) is carried over: two entries named `q` -/
+theorem legacy_keeps_stale_duplicate :
+    updateOpLegacy (fun _ => false) (fun _ => true)
+        (appendOp [⟨[113], [1]⟩] [⟨[113], [2]⟩]) [⟨[113], [3]⟩] =
+      [⟨[113], [2]⟩, ⟨[113], [3]⟩] ∧
+    ((updateOpLegacy (fun _ => false) (fun _ => true)
+        (appendOp [⟨[113], [1]⟩] [⟨[113], [2]⟩]) [⟨[113], [3]⟩]).filter
+          (fun e => e.name == [113])).length = 2 := by decide
+
+/-- the repaired model on the same input: one entry named `q`, the current one -/
+theorem repaired_drops_stale_duplicate :
+    updateOp (fun _ => false) (fun _ => true)
+        (appendOp [⟨[113], [1]⟩] [⟨[113], [2]⟩]) [⟨[113], [3]⟩] = [⟨[113], [3]⟩] := by decide
+
+/-- legacy failure 2: update of `[z]` with the walker result `[f, f]` (overlapping arguments)
+    adds `f` twice -/
+theorem legacy_adds_target_twice :
+    updateOpLegacy (fun _ => false) (fun _ => true) [⟨[122], [1]⟩] [⟨[102], [7]⟩, ⟨[102], [7]⟩] =
+      [⟨[122], [1]⟩, ⟨[102], [7]⟩, ⟨[102], [7]⟩] ∧
+    ((updateOpLegacy (fun _ => false) (fun _ => true) [⟨[122], [1]⟩]
+        [⟨[102], [7]⟩, ⟨[102], [7]⟩]).filter (fun e => e.name == [102])).length = 2 := by decide
+
+/-- the repaired model on the same input -/
+theorem repaired_adds_target_once :
+    updateOp (fun _ => false) (fun _ => true) [⟨[122], [1]⟩] [⟨[102], [7]⟩, ⟨[102], [7]⟩] =
+      [⟨[122], [1]⟩, ⟨[102], [7]⟩] := by decide
+
+/-- one step: as long as the entry's name has not been re-created the two scans agree -/
+theorem updateStep_eq_legacy (excl : Bytes → Bool) (need : UEntry → Bool) (s l : UState)
+    (e : UEntry) (hd : e.name ∉ s.done)
+    (h : s.kept = l.kept ∧ s.replaced = l.replaced ∧ s.pending = l.pending) :
+    ((updateStep excl need s e).kept = (updateStepLegacy excl need l e).kept ∧
+      (updateStep excl need s e).replaced = (updateStepLegacy excl need l e).replaced ∧
+      (updateStep excl need s e).pending = (updateStepLegacy excl need l e).pending) ∧
+    ∀ m ∈ (updateStep excl need s e).done, m = e.name ∨ m ∈ s.done := by
+  unfold updateStep updateStepLegacy
+  rw [if_neg (by simpa using hd), ← h.1, ← h.2.1, ← h.2.2]
+  cases s.pending.find? (·.name == e.name) with
+  | none => exact ⟨⟨rfl, rfl, rfl⟩, fun m hm => Or.inr hm⟩
+  | some t =>
+    simp only
+    split
+    · exact ⟨⟨rfl, rfl, rfl⟩, fun m hm => by simpa using hm⟩
+    · exact ⟨⟨rfl, rfl, rfl⟩, fun m hm => Or.inr hm⟩
+
+theorem scan_eq_legacy (excl : Bytes → Bool) (need : UEntry → Bool) (a : List UEntry) :
+    ∀ s l : UState, (names a).Nodup → (∀ e ∈ a, e.name ∉ s.done) →
+      (s.kept = l.kept ∧ s.replaced = l.replaced ∧ s.pending = l.pending) →
+      (a.foldl (updateStep excl need) s).kept = (a.foldl (updateStepLegacy excl need) l).kept ∧
+      (a.foldl (updateStep excl need) s).replaced =
+        (a.foldl (updateStepLegacy excl need) l).replaced ∧
+      (a.foldl (updateStep excl need) s).pending =
+        (a.foldl (updateStepLegacy excl need) l).pending := by
+  induction a with
+  | nil => intro s l _ _ h; exact h
+  | cons e a ih =>
+    intro s l hnd hd h
+    rw [names_cons, List.nodup_cons] at hnd
+    have hs := updateStep_eq_legacy excl need s l e (hd e List.mem_cons_self) h
+    rw [List.foldl_cons, List.foldl_cons]
+    apply ih _ _ hnd.2 _ hs.1
+    intro x hx hin
+    rcases hs.2 _ hin with h1 | h1
+    · exact hnd.1 (h1 ▸ mem_names_of_mem hx)
+    · exact hd x (List.mem_cons_of_mem _ hx) h1
+
+/-- **The repairs change nothing on the inputs the old theorems covered**: with unique names in
+    the archive and in the walker result the two models agree. -/
+theorem updateOp_eq_legacy (excl : Bytes → Bool) (need : UEntry → Bool) (a ts : List UEntry)
+    (ha : (names a).Nodup) (ht : (names ts).Nodup) :
+    updateOp excl need a ts = updateOpLegacy excl need a ts := by
+  unfold updateOp updateOpLegacy
+  have := scan_eq_legacy excl need a { pending := dedupNames ts } { pending := ts } ha
+    (fun _ _ h => by cases h) ⟨rfl, rfl, dedupNames_of_nodup ts ht⟩
+  simp only [this.1, this.2.1, this.2.2]
+
+/-- an instance of the agreement, with an excluded target -/
+theorem updateStep_eq_legacy_example :
+    updateOpLegacy (fun n => n == [3]) (fun _ => true)
+        [⟨[1], [10]⟩, ⟨[2], [20]⟩, ⟨[3], [30]⟩] [⟨[2], [21]⟩, ⟨[3], [31]⟩, ⟨[4], [40]⟩] =
+      updateOp (fun n => n == [3]) (fun _ => true)
+        [⟨[1], [10]⟩, ⟨[2], [20]⟩, ⟨[3], [30]⟩] [⟨[2], [21]⟩, ⟨[3], [31]⟩, ⟨[4], [40]⟩] := by decide
+
+/-! ### concrete runs -/
 
 /-- the running example: `[2]` is replaced (moves behind the kept ones), `[4]` is new -/
 example : updateOp (fun _ => false) (fun _ => true)
@@ -394,18 +1229,27 @@ example : updateOp (fun n => n == [2]) (fun _ => true)
       [⟨[1], [10]⟩, ⟨[2], [20]⟩, ⟨[3], [30]⟩] [⟨[2], [21]⟩, ⟨[4], [40]⟩] =
     [⟨[1], [10]⟩, ⟨[2], [20]⟩, ⟨[3], [30]⟩, ⟨[4], [40]⟩] := by decide
 
-/-- without `ht` (a target name twice, not in the archive) both copies are written -/
+/-- a target name twice, not in the archive: written once, the first one -/
 example : updateOp (fun _ => false) (fun _ => true) [] [⟨[2], [21]⟩, ⟨[2], [22]⟩] =
-    [⟨[2], [21]⟩, ⟨[2], [22]⟩] := by decide
-
-/-- without `ht` (a target name twice, in the archive) only the FIRST target survives: the second
-    one is not in the result, so `update_target_current` needs `ht` -/
-example : updateOp (fun _ => false) (fun _ => true) [⟨[2], [20]⟩] [⟨[2], [21]⟩, ⟨[2], [22]⟩] =
     [⟨[2], [21]⟩] := by decide
 
-/-- without `ha` (an archive name twice) only the first old entry is matched against the target:
-    the second is kept although it needed updating, next to the re-created one -/
-example : updateOp (fun _ => false) (fun _ => true) [⟨[2], [1]⟩, ⟨[2], [2]⟩] [⟨[2], [21]⟩] =
-    [⟨[2], [2]⟩, ⟨[2], [21]⟩] := by decide
+/-- an archived name three times and a target name twice: one entry, the first target -/
+example : updateOp (fun _ => false) (fun _ => true)
+      [⟨[2], [1]⟩, ⟨[5], [50]⟩, ⟨[2], [2]⟩, ⟨[2], [3]⟩] [⟨[2], [21]⟩, ⟨[2], [22]⟩] =
+    [⟨[5], [50]⟩, ⟨[2], [21]⟩] := by decide
+
+/-- an archived name three times, excluded: all three are kept, in order, the target is dropped -/
+example : updateOp (fun n => n == [2]) (fun _ => true)
+      [⟨[2], [1]⟩, ⟨[5], [50]⟩, ⟨[2], [2]⟩, ⟨[2], [3]⟩] [⟨[2], [21]⟩, ⟨[2], [22]⟩] =
+    [⟨[2], [1]⟩, ⟨[5], [50]⟩, ⟨[2], [2]⟩, ⟨[2], [3]⟩] := by decide
+
+/-- the time filter is asked about the FIRST archived entry of a name only: here it says "up to
+    date" for the first and "outdated" for the second — both are kept -/
+example : updateOp (fun _ => false) (fun e => e.body == [2])
+      [⟨[2], [1]⟩, ⟨[2], [2]⟩] [⟨[2], [21]⟩] = [⟨[2], [1]⟩, ⟨[2], [2]⟩] := by decide
+
+/-- … and here "outdated" for the first and "up to date" for the second — both are left out -/
+example : updateOp (fun _ => false) (fun e => e.body == [1])
+      [⟨[2], [1]⟩, ⟨[2], [2]⟩] [⟨[2], [21]⟩] = [⟨[2], [21]⟩] := by decide
 
 end Pna.Cli
